@@ -76,6 +76,12 @@ CLAIMED = {
    design_ref="DESIGN.md 4.5, 5 (C13)",
    note="Known findings (genuine, recorded): float32 overflow stores inf, C __setstate__ empties before converting, Python __setstate__ stores unconverted data.",
    technique="guard-dominates-store dataflow on clang AST CFGs, taint analysis on Python ast, type-table agreement"),
+ "C14": dict(
+   category="other",
+   text="Path rules over the clang CFG of every function that compares keys or owns a SetIteration (22 translation units; comparison error exits are live in the five object-key units): from the error successor of every key comparison the function returns its error sentinel without clearing the exception; initialised SetIterations are finalised on every exit; a first leaf grown into an empty tree is rolled back on every later error exit; no reference leaks on the error exits; and in the tree mutators (C and Python) no key comparison that can raise is executed after the child was modified. This covers every comparison site and every error exit statically, where a test must fail the n-th comparison of a concrete operation. It does not decide the contents of the container after a failed comparison.",
+   design_ref="DESIGN.md 4.6, 5 (C14)",
+   note="Known findings (recorded, reproduced by witness/cmp_after_commit.py): the separator comparison after the leaf deletion in _BTree_set and _Tree._del.",
+   technique="typestate / must-reach dataflow on clang AST CFGs (error-successor rules), Python ast ordering rule"),
 }
 
 NA_PENDING = "check not built yet (engine under construction); see DESIGN.md section 11"
